@@ -26,6 +26,30 @@ PROPS = {
         "assumptions": STD_ASSUME_PURE + ["symlinks already present in the download directory and non-Unix path syntax are outside",
                                            "'multi-file' means more than one file (the implementation places a one-element files list directly in the download directory)"],
     },
+    "C05": {
+        "lean_modules": ["RdestModel.Props.C05"],
+        "cases": {"quick": 2500, "thorough": 80000},
+        "rule": "metainfo documents built from a syntax tree with control over the exact encoding: canonical, shuffled key order inside info and at top "
+                "level, leading-zero length prefixes (also on the key 'info' itself), binary strings, extra top-level keys whose values are dictionaries "
+                "with a key spelled 'info' (before and after the real one in byte order), values in front of the dictionary (ints, the string 'info', "
+                "lists holding dictionaries with an 'info' key, dictionaries with a non-dictionary 'info'), a second 'info' key, data after the "
+                "dictionary; the generator records the byte span of the real info value; compared: generator span = model span (rawInfo), "
+                "Metainfo::info_hash() = SHA-1 (Lean implementation) of that span; accept/reject and error kind vs the model; distinct = distinct documents",
+        "assumptions": STD_ASSUME_PURE + ["SHA-1 itself is outside the model (sha1_smol vs the driver's own SHA-1 are compared on every case)",
+                                           "documents that end inside a list or dictionary (finding C16-F1) have no terminated info value; the span then runs to the end of the data"],
+    },
+    "C17": {
+        "lean_modules": ["RdestModel.Props.C17"],
+        "cases": {"quick": 3000, "thorough": 100000},
+        "rule": "documents: valid single-/multi-file metainfo with extra keys (40%), one deliberate defect out of 14 per field (missing, wrong type, "
+                "negative, zero, 2^63-1, 2^63, non-UTF-8, pieces not divisible by 20, length+files, neither, file lengths summing past u64, malformed "
+                "file entries) (30%), top-level defects (10%), truncations and byte mutations (10%), random strings over the bencode alphabet (10%); "
+                "every accepted metainfo: all fields via the verif_fields hook and the public accessors, every accessor called under catch_unwind for "
+                "the first 40 and last 3 piece indices; every 40th case runs the real create_file on a file of length {0,1,20,PL-1,PL,PL+1,2PL+5} "
+                "and compares the written .torrent byte for byte with the model's createTorrent and parses it back; distinct = distinct argument lines",
+        "assumptions": STD_ASSUME_PURE + ["64-bit usize (the casts u64 -> usize in the accessors are the identity)",
+                                           "debug-profile arithmetic (overflow panics), as in the test suite"],
+    },
     "C06": {
         "lean_modules": ["RdestModel.Props.C06"],
         "cases": {"quick": 5000, "thorough": 150000},
